@@ -30,6 +30,7 @@ def impl_model_history(h: dict) -> dict:
         return {"v": "decerr", "exn": type(e).__name__, "msg": str(e)[:200]}
     outs = []
     inst = None
+    shared_ctx = {"mine": 1}   # the caller's own pydantic validation context, reused by every "shared" validation
     declared = [f["name"] for f in h["fields"]]
     for op in h["ops"]:
         try:
@@ -41,9 +42,21 @@ def impl_model_history(h: dict) -> dict:
                 objs = {k: I.value_obj(v) for k, v in op["values"].items()}
                 d = {k: objs[k] for k in op["order"]}
                 before = list(d)
-                inst = K.model_validate(d)
+                cm = op.get("context")
+                if cm == "fresh":
+                    user_ctx = {"mine": 1}
+                elif cm == "shared":
+                    user_ctx = shared_ctx
+                else:
+                    user_ctx = None
+                ctx_before = None if user_ctx is None else dict(user_ctx)
+                try:
+                    inst = K.model_validate(d) if user_ctx is None else K.model_validate(d, context=user_ctx)
+                finally:
+                    ctx_ok = user_ctx is None or user_ctx == ctx_before
                 view = public_view(inst, declared)
                 view["input_dict_untouched"] = list(d) == before
+                view["user_context_untouched"] = ctx_ok
                 outs.append(view)
             elif op["op"] == "assign":
                 if inst is None:
@@ -120,7 +133,7 @@ def gen_history(rnd) -> dict | None:
             continue
         order = list(names)
         rnd.shuffle(order)
-        ops.append({"op": rnd.choice(["construct", "validate"]), "values": vals, "order": order})
+        ops.append({"op": rnd.choice(["construct", "validate"]), "values": vals, "order": order, "context": rnd.choice([None, None, "fresh", "shared", "shared"])})
     if not ops:
         return None
     h = {"fields": fields, "ops": ops, "validate_assignment": rnd.random() < 0.3}
@@ -158,7 +171,7 @@ def run(tier: str, seed: int, rep: Report, model: Model) -> dict:
     rnd = rng_for("C17", seed)
     n = depth(tier, 400, 4000)
     rep.rule = ("generated models (1-4 fields, optional / plain fields, markers, expressions) with 2-4 constructions / model_validate calls in "
-                "shuffled keyword order (conforming or with one / two faults) and, under validate_assignment, one assignment; nested models; "
+                "shuffled keyword order (conforming or with one / two faults; model_validate with no / a fresh / a reused context= dict) and, under validate_assignment, one assignment; nested models; "
                 "class-definition dtype cross-check for npt.NDArray[...]; distinct = distinct history; non-trivial = at least two validations")
     rep.notes.append("partial: model_dump / iteration / repr / model_fields_set are compared by the harness only; validate_assignment is the known finding K2")
     hs = []
@@ -209,6 +222,8 @@ def run(tier: str, seed: int, rep: Report, model: Model) -> dict:
                 continue
             if o["v"] == "accept" and not o.get("clean", True):
                 rep.violation({"what": "public data of the instance exposes something besides the declared fields", "step": i, "got": o, **rec})
+            if o.get("user_context_untouched") is False:
+                rep.violation({"what": "model_validate wrote into the caller's validation context", "step": i, **rec})
             if o.get("input_dict_untouched") is False:
                 rep.violation({"what": "model_validate modified the caller's dict", "step": i, **rec})
             ref = GC.reference({"params": [{"name": f["name"], "hint": f["hint"]} for f in h["fields"]], "args": op["values"], "provider": None})
@@ -276,6 +291,16 @@ def impl_nested(_: dict) -> dict:
     expect("outer fields share one context", False, lambda: Outer(first={"x": arr(2, 3), "y": arr(3)}, z=arr(5), second={"x": arr(7, 1), "y": arr(1)}, w=arr(6, 4)))
     expect("inner violation", False, lambda: Outer(first={"x": arr(2, 3), "y": arr(4)}, z=arr(5), second={"x": arr(7, 1), "y": arr(1)}, w=arr(5, 4)))
     expect("prebuilt inner instances", True, lambda: Outer(first=Inner(x=arr(2, 3), y=arr(3)), z=arr(5), second=Inner(x=arr(2, 3), y=arr(3)), w=arr(5, 4)))
+    # the same with a caller-supplied validation context (pydantic hands one dict to the whole validation tree)
+    uc = {"mine": 1}
+    good = {"first": {"x": arr(2, 3), "y": arr(3)}, "z": arr(5), "second": {"x": arr(7, 1), "y": arr(1)}, "w": arr(5, 4)}
+    for rnd_ in range(2):
+        expect(f"independent contexts under model_validate(context=...) #{rnd_}", True, lambda: Outer.model_validate(good, context=uc))
+    expect("outer fields share one context under context=", False,
+           lambda: Outer.model_validate({**good, "w": arr(6, 4)}, context=uc))
+    expect("conforming validation after a rejected one with the same context dict", True, lambda: Outer.model_validate(good, context=uc))
+    if uc != {"mine": 1}:
+        problems.append({"what": "nested: the caller's validation context was written to", "context_keys": sorted(map(str, uc))})
     if m is not None:
         d = m.model_dump()
         if list(d) != ["first", "z", "second", "w"] or list(d["first"]) != ["x", "y"]:
